@@ -30,6 +30,8 @@ def run(chk):
     common.fun_stage(chk, 'utf8-names', 'putrb', 40 if quick else 400, {'utf8_only': True})
     # --trash-dir on another volume, named directly and through a symlink that lives on the root volume (the same spelling
     # for the writer and the readers): what is written must decode, for those readers, to the exact location
+    # legal paths (about 1500 bytes) whose percent-encoded form is longer than PATH_MAX: written whole, read back whole
+    common.fun_stage(chk, 'long-encoded-paths', 'putrb', 8 if quick else 80, {'n': 3, 'p_long': 1.0, 'utf8_only': True})
     common.fun_stage(chk, 'custom-dir', 'putrb', 25 if quick else 300, {'td': 'c'})
     common.fun_stage(chk, 'custom-dir-through-link', 'putrb', 25 if quick else 300, {'td': 'clink'})
     ap = alphabet_paths()
